@@ -13,7 +13,7 @@ mcCallsS ==
 mcAdvC == {}
 mcAdvS ==
   Singles({AAck, ASet(<<>>), ASet(<<<<3, 1>>>>), ASet(<<<<4, 3>>, <<5, 20000>>>>), ASet(<<<<2, 0>>>>), ASet(<<<<2, 2>>>>),
-           ASet(<<<<4, -2147483647 - 1>>>>), ASet(<<<<5, 16383>>>>), ASet(<<<<5, 16777216>>>>), ASet(<<<<9, 7>>, <<1, 100>>>>),
+           ASet(<<<<4, -2147483647 - 1>>>>), ASet(<<<<5, 16383>>>>), ASet(<<<<5, 16777216>>>>), ASet(<<<<9, 7>>, <<1, 100>>>>), ASet(<<<<1, 0>>>>),
            ASet(<<<<8, 2>>>>), ASet(<<<<6, -1>>>>), ASet(<<<<3, -1>>>>),
            AH(1, "req_get", FALSE), AH(3, "req_get", FALSE), AH(5, "req_get", TRUE), AD(1, 3, FALSE, -1)})
 mcSetup == Handshake("s", <<>>)
